@@ -12,6 +12,7 @@ import itertools as it
 import operator
 import re
 import threading
+from decimal import Decimal
 
 import numpy as np
 from openpyxl.formula.tokenizer import Tokenizer
@@ -983,6 +984,15 @@ def coerce_to_number(value, convert_all=False):
         return value
 
 
+def number_to_text(value):
+    """The text excel shows for a number: small numbers are written out
+    (0.00001, not 1e-05), scientific notation only starts below 1E-9"""
+    text = str(value)
+    if isinstance(value, float) and 'e-' in text and abs(value) >= 1e-9:
+        text = format(Decimal(text), 'f')
+    return text
+
+
 def coerce_to_string(value):
     if isinstance(value, bool):
         return str(value).upper()
@@ -991,7 +1001,7 @@ def coerce_to_string(value):
         return ''
 
     elif not isinstance(value, str):
-        return str(coerce_to_number(value))
+        return number_to_text(coerce_to_number(value))
 
     else:
         return value
@@ -1266,7 +1276,7 @@ def build_operator_operand_fixup(capture_error_state):
             elif isinstance(left_op, bool):
                 left_op = str(left_op).upper()
             elif isinstance(left_op, float) or isinstance(left_op, int):
-                left_op = str(coerce_to_number(left_op))
+                left_op = number_to_text(coerce_to_number(left_op))
             else:
                 left_op = str(left_op)
 
@@ -1275,7 +1285,7 @@ def build_operator_operand_fixup(capture_error_state):
             elif isinstance(right_op, bool):
                 right_op = str(right_op).upper()
             elif isinstance(right_op, float) or isinstance(right_op, int):
-                right_op = str(coerce_to_number(right_op))
+                right_op = number_to_text(coerce_to_number(right_op))
             else:
                 right_op = str(right_op)
 
